@@ -96,6 +96,18 @@ def many_terms_grammar():
                          ('C', [ts[64]], 0), ('C', [ts[65], ts[2]], 0), ('D', ['C', ts[62]], 0), ('D', [], 0)])
 
 
+def many_nterms_grammar():
+    """70 nonterminals: the sets of nonterminals the analyser keeps (nullable, FIRST done / in progress) span more than one
+    64-bit word; nullability and FIRST travel through a unit chain that ends beyond index 64"""
+    n = 70
+    nts = ['S'] + ['A%d' % i for i in range(n - 1)]
+    rules = [('S', ['A0', 'z'], 0), ('S', ['y', 'A%d' % (n - 3), 'y'], 0)]
+    for i in range(n - 2):
+        rules.append(('A%d' % i, ['A%d' % (i + 1)], 0))
+    rules += [('A%d' % (n - 2), [], 0), ('A%d' % (n - 2), ['a'], 0), ('A%d' % (n - 2), ['b', 'A%d' % (n - 2)], 0)]
+    return gram.Grammar('many_nterms', nts, ['a', 'b', 'y', 'z'], 'S', rules)
+
+
 def many_terms_inputs(g):
     t = [ord(c) for c in g.ts]
     pool = [t[0], t[1], t[2], t[62], t[63], t[64], t[65], t[30]]
@@ -108,6 +120,7 @@ def c01_corpus(tier, seed):
     for g in catalogue('lr1'):
         entries += entries_for(g)
     entries.append(pipeline.gen_entry(many_terms_grammar()))
+    entries.append(pipeline.gen_entry(many_nterms_grammar()))
     # small-scope enumeration (seed independent) through the host TUs
     if tier == 'quick':
         fams = [gengram.small_grammars(stride=17, limit=160, max_rules=3, max_rhs=2),
